@@ -571,6 +571,40 @@ fn special_rules(ctx: &Ctx) {
             other => ctx.violation("collect-str", format!("collect_str(char {:?}): got {:?} want {}", c, other.map(|r| r.map(|b| hex(&b))), hex(&want)), m, json!({"char": c.to_string()})),
         }
     }
+    // unsized values passed directly (T = str, [u8], [u16]): an empty one is a zero-sized VALUE with a one-byte encoding
+    for t in ["", "a", "é"] {
+        m += 1;
+        let want = spec_encode(&Val::Str(t.to_string())).unwrap();
+        for (name, got) in [
+            ("to_allocvec::<str>", trap(|| postcard::to_allocvec::<str>(t))),
+            ("to_stdvec::<str>", trap(|| postcard::to_stdvec::<str>(t))),
+            ("to_extend::<str>", trap(|| postcard::to_extend::<str, Vec<u8>>(t, Vec::new()))),
+            ("to_slice::<str>", trap(|| {
+                let mut b = [0u8; 16];
+                postcard::to_slice::<str>(t, &mut b).map(|o| o.to_vec())
+            })),
+        ] {
+            match got {
+                Ok(Ok(b)) if b == want => {}
+                other => ctx.violation("unsized-value", format!("{name}({:?}) gave {:?}, spec {}", t, other.map(|r| r.map(|b| hex(&b))), hex(&want)), m, json!({"str": t})),
+            }
+        }
+    }
+    for l in [0usize, 1, 3] {
+        m += 1;
+        let bytes: Vec<u8> = (0..l as u8).collect();
+        let words: Vec<u16> = (0..l as u16).map(|x| x * 300).collect();
+        let want_b = spec_encode(&Val::Seq(bytes.iter().map(|b| Val::U8(*b)).collect())).unwrap();
+        let want_w = spec_encode(&Val::Seq(words.iter().map(|b| Val::U16(*b)).collect())).unwrap();
+        match trap(|| postcard::to_allocvec::<[u8]>(&bytes)) {
+            Ok(Ok(b)) if b == want_b => {}
+            other => ctx.violation("unsized-value", format!("to_allocvec::<[u8]> len {l} gave {:?}", other.map(|r| r.map(|b| hex(&b)))), m, json!({"len": l})),
+        }
+        match trap(|| postcard::to_allocvec::<[u16]>(&words)) {
+            Ok(Ok(b)) if b == want_w => {}
+            other => ctx.violation("unsized-value", format!("to_allocvec::<[u16]> len {l} gave {:?}", other.map(|r| r.map(|b| hex(&b)))), m, json!({"len": l})),
+        }
+    }
     ctx.class("collect-str", m);
     ctx.add_evals(n * 2 + m);
     ctx.add_nontrivial(n + m);
